@@ -1,6 +1,7 @@
 package main
 
 import (
+	"github.com/ericlagergren/decimal"
 	"sync"
 	"context"
 	"fmt"
@@ -101,7 +102,7 @@ func implEvalInner(text string, localOff int, hostSpec, dataWire string) (string
 		}
 		return r, m
 	}
-	ctx := context.Background()
+	ctx := context.WithValue(context.Background(), callerKey{}, "the caller's")
 	// 1. raw evaluation (no float conversion, no recover) for the comparison with the model
 	var log1 callLog
 	r1, m1 := mk(&log1)
@@ -139,6 +140,13 @@ func implEvalInner(text string, localOff int, hostSpec, dataWire string) (string
 		fails = append(fails, "Resolve panicked: "+msg2)
 	} else if e2 != nil && v2 != nil {
 		fails = append(fails, "Resolve returned both a value and an error")
+	} else if e2 == nil && rerr == nil && !pan {
+		// only a top-level number is converted (to float64) on the way out: everything else is handed back as it is
+		if _, isNum := res.(*decimal.Big); !isNum && !strings.Contains(text, "now(") && !strings.Contains(text, "toDay(") {
+			if a, b := enc(v2), enc(res); a != b {
+				fails = append(fails, "the value handed back by Resolve ("+a+") is not the result of the evaluation ("+b+")")
+			}
+		}
 	}
 	return obs, fails
 }
